@@ -32,6 +32,16 @@ class ZzLookup(LookupError):
     pass
 
 
+class ZzHttpLikeError(Exception):
+    """an ordinary application exception that happens to carry `code` and `message` attributes (an HTTP client's error, say)"""
+
+    def __init__(self, marker: str):
+        super().__init__(marker)
+        self.code = 429
+        self.message = marker
+        self.data = {'retry-after': marker}
+
+
 class ZzUnprintable(Exception):
     """an exception whose text cannot be produced (a broken __repr__ / __str__ in application code): still an ordinary exception"""
 
@@ -43,7 +53,7 @@ class ZzUnprintable(Exception):
 
 EXC = {
     'ValueError': ValueError, 'KeyError': KeyError, 'TypeError': TypeError, 'AssertionError': AssertionError,
-    'ZzRaisedFromRpcError': None, 'ZzRaisedWhileHandlingRpcError': None, 'RuntimeError': RuntimeError, 'ZzCustomBoom': ZzCustomBoom, 'ZzLookup': ZzLookup, 'ZzUnprintable': ZzUnprintable, 'OSError': OSError,
+    'ZzRaisedFromRpcError': None, 'ZzRaisedWhileHandlingRpcError': None, 'ZzHttpLikeError': ZzHttpLikeError, 'RuntimeError': RuntimeError, 'ZzCustomBoom': ZzCustomBoom, 'ZzLookup': ZzLookup, 'ZzUnprintable': ZzUnprintable, 'OSError': OSError,
     'ZeroDivisionError': ZeroDivisionError, 'AttributeError': AttributeError, 'StopIteration': StopIteration,
     'UnicodeDecodeError': None, 'ValidationError': None, 'DeserializationError': None,  # built specially
     'TimeoutError': TimeoutError, 'NotImplementedError': NotImplementedError, 'RecursionError': RecursionError,
@@ -172,7 +182,7 @@ def _pyname(name: str) -> str:
     return base
 
 
-def sig_source(params: List[Dict[str, Any]], skip_ctx: bool = False, leading_self: Any = False) -> Tuple[str, List[str]]:
+def sig_source(params: List[Dict[str, Any]], skip_ctx: bool = False, leading_self: Any = False, annotate: bool = False) -> Tuple[str, List[str]]:
     """returns (parameter list source, names of non-context parameters); leading_self: False, True ('self') or the instance parameter's name"""
     parts: List[str] = [leading_self if isinstance(leading_self, str) else 'self'] if leading_self else []
     names: List[str] = []
@@ -196,8 +206,11 @@ def sig_source(params: List[Dict[str, Any]], skip_ctx: bool = False, leading_sel
             parts.append('**' + p['name'])
         else:
             src = p['name']
+            if annotate and not p.get('ctx'):
+                # a string annotation naming a type that exists for the type checker only (imported under TYPE_CHECKING)
+                src += ": 'OnlyKnownToTheTypeChecker'"
             if 'default' in p:
-                src += '=' + repr(p['default']['value'])
+                src += ('=' if not (annotate and not p.get('ctx')) else ' = ') + repr(p['default']['value'])
             parts.append(src)
         if not p.get('ctx'):
             names.append(p['name'])
@@ -237,7 +250,7 @@ def build_function(mspec: Dict[str, Any]) -> Any:
     """plain function or coroutine function for flavours func / coro"""
     key = mspec['name']
     py = _pyname(key)
-    src, names = sig_source(mspec['params'])
+    src, names = sig_source(mspec['params'], annotate=bool(mspec.get('annotations')))
     ctx_names = [p['name'] for p in mspec['params'] if p.get('ctx')]
     ctx_expr = ctx_names[0] if ctx_names else 'NOCTX'
     bound = '{' + ', '.join(f'{n!r}: {n}' for n in names) + '}'
@@ -262,7 +275,7 @@ def build_view(mspec: Dict[str, Any], extra_members: bool = False) -> Any:
     key = mspec['name']
     py = _pyname(key)
     me = mspec.get('self_name', 'self')      # the instance parameter need not be called 'self'
-    src, names = sig_source(mspec['params'], leading_self=me)
+    src, names = sig_source(mspec['params'], leading_self=me, annotate=bool(mspec.get('annotations')))
     bound = '{' + ', '.join(f'{n!r}: {n}' for n in names) + '}'
     if mspec.get('static'):
         # a public @staticmethod of the view: no instance parameter, no access to the constructor context
